@@ -26,7 +26,7 @@ def programs(rng, n):
     """terminating free-running programs (every loop ends because all its objects get unregistered)"""
     out = []
     for i in range(n):
-        kind = i % 5
+        kind = i % 6
         be = rng.choice(["et", "ep", "pp", "po"])
         if kind == 0:
             # posters -> owner events; the owner joins the posters before unregistering
@@ -62,6 +62,13 @@ def programs(rng, n):
             secs[1] = "L0:er0 tc1 tc2 tr0+50000000"
             secs.append("H0t0:eu0")
             out.append(";".join(secs))
+        elif kind == 4:
+            # the owner unregisters a PENDING event while another thread posts OTHER events of the same owner
+            secs = ["B" + be, "L0:er0 er1 er2 kr0 tr0+%d" % rng.choice([60000000, 90000000]),
+                    "H0k0:ep0.0 sl%d eu0" % rng.choice([10, 20]),
+                    "P1:sl%d " % rng.choice([3, 5]) + " ".join("ep0.%d sl1" % rng.choice([1, 2]) for _ in range(rng.randint(3, 8))),
+                    "H0t0:jn eu1 eu2", "H0e1:-", "H0e2:-"]
+            out.append(";".join(secs))
         else:
             # independent loops initialised, run and torn down concurrently in several threads
             nl = rng.randint(2, 4)
@@ -94,6 +101,6 @@ def run(exe, cases, timeout=60):
                 name = glob.group(1) if glob else ""
                 exempt = bool(name) and any(re.search(e, name) for e in EXEMPT)
                 races.append({"where": text.strip(), "global": name, "exempt": exempt, "report": blk.strip()[:3000]})
-        complete = out.rstrip().endswith("0:D")
+        complete = "0:D" in out
         res.append({"case": c, "complete": complete, "races": races, "stderr_tail": err[-500:], "out_tail": out[-200:]})
     return res
